@@ -13,7 +13,8 @@ Quantities == [simple |-> <<Ent("length", "m", 1)>>, derived |-> <<Ent("length",
                pure |-> <<Ent("dimensionless", "-", 1)>>,
                captioned |-> <<Ent("Unknown", "<unknown>", 1)>>,
                \* one quantity type held in two units (only an ordered-map request builds it): the eight quantity-keeping operators keep the
-               \* map AND the amount's reading in it (no unit matching inside x may rescale the values); k / x is left to QAlg (Raw seeds)
+               \* map AND the amount's reading in it (no unit matching inside x may rescale the values); k / x may come back in matched units (1/m2 for
+               \* 1/(m.cm)) - the harness compares its rows by dimension and base-unit amount
                twounit |-> <<Ent("length", "m", 1), Ent("diameter", "cm", 1)>>]   \* the 'Unknown' quantity type with a caption: "keeps x's quantity" includes the caption          \* a value whose own unit is the dimensionless '-' keeps it
 Recip(q) == [i \in 1..Len(q) |-> [q[i] EXCEPT !.e = -q[i].e]]
 Ks == {R(3), <<1, 2>>, R(-2), Zero}
@@ -32,7 +33,7 @@ Value(op, k, v) ==
 ResultQ(op, q) == IF op \in {"k/x", "k//x"} THEN Recip(q) ELSE q
 Rows == { [qsel |-> s, op |-> op, k |-> k, v |-> v, rq |-> ResultQ(op, Quantities[s]), rv |-> Value(op, k, v)] :
           s \in DOMAIN Quantities, op \in OpsAll, k \in Ks, v \in { w \in Vs : TRUE } }
-InScope(r) == ~(r.qsel = "twounit" /\ r.op \in {"k/x", "k//x"})
+InScope(r) == ~(r.qsel = "twounit" /\ r.op = "k//x")       \* (the floor of a quotient depends on the units the quotient is expressed in)
 ASSUME JsonSerialize(IOEnv.OUT_FILE, [rows |-> { r \in Rows : Defined(r.op, r.k, r.v) /\ InScope(r) }, quantities |-> Quantities])
 VARIABLE x
 Init == x = 0
